@@ -85,7 +85,14 @@ pub fn lockstep(c: &StateCase, st: &mut Stats, per_step: &mut dyn FnMut(&mut Rig
         }
         // results
         match (&res, &out) {
-            (Ok(()), StepOut::Ok) | (Ok(()), StepOut::Halt) => {}
+            (Ok(()), StepOut::Ok) => {}
+            (Ok(()), StepOut::Halt) => {
+                // a virtual HALT leaves the machine on the HALT instruction: that is the "currently executing" one
+                let p = rig.sim.prefetch_pc();
+                if !c.spec.real_traps && p != r.fault_addr {
+                    return Err(format!("{what}: after the virtual HALT prefetch_pc() = x{p:04X}, the HALT instruction is at x{:04X}", r.fault_addr));
+                }
+            }
             (Err(e), StepOut::Err(f)) if classify_err(e) == Some(*f) => {
                 let p = rig.sim.prefetch_pc();
                 if p != r.fault_addr {
